@@ -28,7 +28,7 @@ CHECKS = {
  "C07": dict(tech="scalar-fold oracle over synthetic and real score matrices, every max/argmax/threshold arm incl. forced dispatch arms",
    text="Runtime monitoring: score matrices of all row classes (0 .. 65536 rows) and value families (all-negative, planted maxima in every column, duplicates, infinities), in fresh and reused buffers, through every arm; max, argmax, threshold sets and cross-arm agreement judged by a scalar fold; real scorings check the -inf padding cells.",
    note="NaN-free matrices only (as the property states); NEON not covered", ref="DESIGN.md section 3 C07"),
- "C08": dict(tech="inequality oracle u8score >= scale(real score) on every position and arm, matrices built to saturate",
+ "C08": dict(tech="inequality oracle u8score >= scale(real score) on every position and arm, matrices built to saturate; DNA, protein and a user-defined 12-symbol alphabet (AVX2 shuffle kernel, K <= 16)",
    text="Runtime monitoring: matrices whose rounded-up cells sum above 255, sequences with planted consensus / anti-consensus / wildcards; every position's byte score on every arm is compared with the matrix's own byte image of the real score and of lower thresholds.",
    note="one open known finding (generic u8 kernel wraps); NEON not covered (reading shows the same wrapping add there)", ref="DESIGN.md section 3 C08"),
  "C09": dict(tech="f64 reference model of the conversion definitions over generated count data / pseudocounts / backgrounds / bases; single-condition invalid inputs for the rejection clauses",
@@ -36,7 +36,7 @@ CHECKS = {
    note="relative tolerance 1e-5; inputs within float noise of the acceptance boundaries are not generated", ref="DESIGN.md section 3 C09"),
  "C10": dict(tech="algebraic-law monitor (involution, definition, commutation with conversions, mirrored scores against the f64 scoring model)",
    text="Runtime monitoring: for generated DNA matrices of widths 1..40 (incl. wildcard counts, finite wildcard columns, -inf cells) the four matrix types are reverse-complemented and checked cell-exactly for involution and definition, for commutation with the conversions under strand-symmetric backgrounds, and for mirrored scores on reverse-complemented sequences.",
-   note="DNA only (the only complementable alphabet)", ref="DESIGN.md section 3 C10"),
+   note="Dna (the only complementable alphabet in the crate) plus a user-defined ACGTN alphabet built on the public traits, both in one process", ref="DESIGN.md section 3 C10"),
  "C11": dict(tech="exact-enumeration oracle (all K^M words, f64 tail) for the p-value bounds; structural monitors for wider matrices",
    text="Runtime monitoring against an exact oracle: for DNA widths <= 8 and protein widths <= 3 the exact score distribution is enumerated and every p-value must lie between the exact tails at s+-d; monotonicity, range and round-trip laws are checked for widths up to 30.",
    note="exact bounds only where K^M is enumerable; zero wildcard background frequency", ref="DESIGN.md section 3 C11"),
@@ -49,16 +49,16 @@ CHECKS = {
  "C14": dict(tech="generator-model monitor: generated files + bundled corpora read under 9 stream schedules (monitor-owned chunking Read with injected Interrupted), compared record by record",
    text="Runtime monitoring under hostile stream schedules: generated files of all four formats (1..600 records, shuffled / partial symbol columns, optional metadata) and the bundled corpora are read through capacity-1 buffers, 1-byte reads, random short reads and injected interrupts; every record is compared with the generator's model / an independent line parser.",
    note="canonical syntax only (no blank lines between JASPAR records, no '>' inside descriptions); TRANSFAC counts < 2^24", ref="DESIGN.md section 3 C14"),
- "C15": dict(tech="fault-injection monitor: every prefix, single-byte edit and multi-byte insertion of valid files, structural damage, special numeric tokens, random bytes; panics caught; termination decided on logical steps (records returned, end-of-input polls, CPU time consumed by the reader call)",
+ "C15": dict(tech="fault-injection monitor: every prefix, single-byte edit and multi-byte insertion of valid files, structural damage, special numeric tokens, random bytes; panics caught; termination decided on logical steps (records returned, end-of-input polls, CPU time consumed by the reader call); release build plus a dev-profile build (overflow checks) in both tiers",
    text="Runtime monitoring with systematic fault injection: every prefix and single-byte substitution / deletion / insertion of valid files of each format plus structural damage and random bytes are fed to all four readers under catch_unwind and chunked delivery; panics, runaway record streams, end-of-input livelocks and reader calls that burn >= 8 s of CPU on a few-kilobyte input (worker thread, CPU counter read from /proc) are violations.",
    note="a reader call whose worker thread got no CPU for 10 min is inconclusive, never a violation", ref="DESIGN.md section 3 C15"),
  "C16": dict(tech="online trace checker recomputing the sampler state from the dataset after every step; twin-run determinism check; per forced dispatcher arm",
    text="Runtime monitoring of sampling traces: after construction and after every step the count matrix, background, starts and the iteration's hold-out counts are recomputed from the linear sequences; twin runs must be identical.",
    note="seeds >= 2 in zero-or-one mode and >= 2 sequences (fewer divide by an empty background by construction)", ref="DESIGN.md section 3 C16"),
- "C17": dict(engine="python-monitors", tech="Python-level reference-model monitor (pure-Python float64 definitions + exact enumeration) driving the extension module built from the current tree, backends forced through the hook",
+ "C17": dict(engine="python-monitors", tech="Python-level reference-model monitor (pure-Python float64 definitions + exact enumeration) driving the extension module built from the current tree, backends forced through the hook; score(p) also compared with the core library called directly on the same cells",
    text="Runtime monitoring through CPython: generated scenarios (create / normalize / log_odds with backgrounds and bases / calculate under forced backends incl. reuse of one striped sequence with motifs of many widths / scan / pvalue and score with both methods incl. reverse complements taken after a distribution was cached / load through paths, BytesIO and short-read file objects / error paths) are compared with pure-Python float64 definitions; PanicException is a violation.",
    note="system CPython 3.11; the reference definitions in py/refmodel.py are trusted; scanner completeness is judged on the AVX2 / auto arms only (generic-arm wrap is the open finding of C02/C08)", ref="DESIGN.md section 3 C17"),
- "C18": dict(engine="python-monitors", tech="sequence- and buffer-protocol monitor: every index class, every element read through (shape, strides) on the raw storage, address-based liveness check of previously exported views; valgrind pass in thorough",
+ "C18": dict(engine="python-monitors", tech="sequence- and buffer-protocol monitor: every index class, every element read through (shape, strides) on the raw storage, address-based liveness check of previously exported views; second pass on a build whose binding crate has arithmetic-overflow checks; valgrind pass in thorough",
    text="Runtime monitoring through CPython: for every exported class and many sizes, len() and obj[i] over valid, negative, out-of-range and huge indices are compared with the logical model; memoryview format / shape / strides are checked and every element is read through them from the raw storage; views taken before the object is reused for scoring are checked against the object's current storage (address comparison via PyObject_GetBuffer); thorough re-runs under valgrind.",
    note="one open known finding (memoryview left dangling when calculate() reallocates); system CPython 3.11", ref="DESIGN.md section 3 C18"),
  "C19": dict(tech="model-based monitor (Vec<Vec<T>> model) of random operation histories, alignment and stride invariants asserted after every op",
